@@ -39,7 +39,7 @@ SheetGrids ==
 Pages == { <<>>, <<1>>, <<2, 1>>, <<1, 1, 1>> }
 
 (* typed sheet = the kinds of the two cells of its single data row (below a header row of two strings) *)
-TypedKinds == {"n", "nf", "b", "d", "date", "t", "e", "f", "s", "empty"}
+TypedKinds == {"n", "nf", "z", "b", "bf", "d", "date", "t", "e", "f", "s", "empty"}
 TypedRows == { <<a, b>> : a \in TypedKinds, b \in TypedKinds }
 
 Universe == CASE Kind = "deck"  -> Slides
